@@ -39,3 +39,15 @@ PROPS_ADD["C31"] = {
     "design_ref": "7/C31", "assumptions": E5_ASSUME,
     "stub": ["redisBackend (recording stub: replies are a pure function of the arguments)"],
 }
+
+PROPS_ADD["C30"] = {
+    "engine": "redissim", "level": "exploration", "budget": {"quick": 10, "thorough": 600},
+    "title": "Concurrent Redis clients never lose updates",
+    "technique": "deterministic simulation: 2-4 connections served by the real handleConn as scheduler tasks issue INCR/INCRBY/DECRBY and SET NX on shared keys; a seeded scheduler interleaves them at backend-call boundaries, at the verifhook yield sites inside the transaction path and, for the raft-backed variant, at every raftClient/TSO call",
+    "rule": "case = per-connection command scripts + configuration (connections, counters, NX keys, backend) + scheduler choice tape; oracle: final GET of every counter = initial value + sum of the deltas of the commands that replied an integer, at most one SET NX per absent key replied OK; distinct = distinct event-trace hash (scheduler decisions included); non-trivial = backend calls of different connections alternated at least twice",
+    "level_text": "Seeded search over interleavings of concurrent client commands. The property quantifies over all schedules; they are sampled at the granularity of the yield sites reachable in the tree, which is stated in the note.",
+    "note": "Granularity: embedded backend - boundaries of each redisBackend call plus every verifhook.Yield site the handler goroutine reaches inside db.Update (watermark/oracle/commit sites as far as /repo has them; with no site between transaction begin and commit an embedded INCR is one atomic step for the scheduler and a lost update cannot be exhibited). Raft-backed variant - the real raftBackend runs over an ideal single-region snapshot-isolation store (harness model of percolator: locks, write conflicts) with a scheduling point at every raftClient/TSO call; it shows what the gateway's own read-then-write logic loses, not what a real cluster adds.",
+    "design_ref": "7/C30", "assumptions": E5_ASSUME + ["yields taken while a goroutine holds the transaction oracle's mutex are passed through unless /repo announces the lock with verifhook.BeforeLock"],
+    "real": ["embeddedBackend on a real NoKV.DB opened with main.go's options", "raftBackend (Get/Set/IncrBy/mutate/lock resolution)"],
+    "stub": ["raftstore client + PD TSO (raft-backed variant): ideal single-region percolator store"],
+}
